@@ -70,6 +70,7 @@ def check(ctx):
     ctx.rule('C06.R5', 'fixed-size decisions only under not extensible and minimum == maximum')
     ctx.rule('C06.R6', 'extension bitmap arithmetic (decoder vs encoder; Python vs C generator)')
     ctx.rule('C06.R7', 'E1 conformance of the OER classes')
+    ctx.rule('C06.R9', 'compile-time copy discipline: only owned (constructed or copied) compiled objects are configured')
     ctx.rule('C06.R8', 'extension-marker state machine agrees with the BER/PER siblings')
 
     # ---- R1
@@ -383,6 +384,21 @@ def check(ctx):
         ctx.violation('C06.R8', OER, node, Model.qual(f),
                       'oer.Compiler.compile_members handles the extension marker as `%s`, its siblings as `%s`: components after a second "..." are treated as additions '
                       'and moved behind the extension bitmap (X.696 16: they are root components)' % (txt, major), stmt='marker branch differs')
+
+
+    # ---- R9 copy discipline: compiled user types are cached and shared by every reference; a member-level constraint configured on
+    #      the shared object changes the encoding of unrelated components
+    from .. import copyrule
+    n9 = 0
+    for f_, node_, var_, what_, owned_, why_ in copyrule.sites(model, ['asn1tools/codecs/compiler.py', OER]):
+        n9 += 1
+        ctx.instance('C06.R9', '%s %s' % (Model.qual(f_), what_), 'owned' if owned_ else 'VIOLATION', why_, node=node_, file=f_._mod.rel)
+        if not owned_:
+            ctx.violation('C06.R9', f_._mod.rel, node_, Model.qual(f_),
+                          '%s configures an object that may be the cached instance shared by every reference to a named type (%s): the OER encoding of an unrelated component '
+                          'with the same type changes' % (what_, why_), stmt=norm_stmt(Model.enclosing_stmt(node_)))
+    if n9 < 4:
+        raise AnalysisError('C06.R9 found only %d configuration sites' % n9)
 
 
 MUTANTS = [
